@@ -110,8 +110,8 @@ class CoopLock:
 
 def install_coop_locks(prefix: str = 'beartype') -> dict:
     """Replace every Lock/RLock reachable as a global of a `prefix` module or as an attribute of an instance of a
-    class defined in a `prefix` module. Returns label -> CoopLock; labels are `<module>.<global>` and
-    `<module>.<global holding the instance>.<attribute>` (`<module>.<Class>#<k>.<attribute>` for anonymous instances)."""
+    class defined in a `prefix` module. Returns label -> CoopLock; labels are `<module>:<global>` and
+    `<module>:<global holding the instance>.<attribute>` (`<module>:<Class>#<k>.<attribute>` for anonymous instances)."""
     seen: dict[int, CoopLock] = {}
     out: dict[str, CoopLock] = {}
     keep = []
@@ -131,9 +131,9 @@ def install_coop_locks(prefix: str = 'beartype') -> dict:
     for mname, mod in mods:
         for k, v in list(vars(mod).items()):
             if isinstance(v, (_LOCK_T, _RLOCK_T)):
-                setattr(mod, k, coop(v, f'{mname}.{k}'))
+                setattr(mod, k, coop(v, f'{mname}:{k}'))
             elif getattr(type(v), '__module__', '').startswith(prefix) and not isinstance(v, type):
-                owner_name.setdefault(id(v), f'{mname}.{k}')
+                owner_name.setdefault(id(v), f'{mname}:{k}')
     anon = 0
     for o in gc.get_objects():
         cls = type(o)
@@ -156,7 +156,7 @@ def install_coop_locks(prefix: str = 'beartype') -> dict:
                 own = owner_name.get(id(o))
                 if own is None:
                     anon += 1
-                    own = f'{m}.{cls.__name__}#{anon}'
+                    own = f'{m}:{cls.__name__}#{anon}'
                 try:
                     setattr(o, n, coop(v, f'{own}.{n}'))
                 except Exception:
@@ -203,10 +203,12 @@ class Preempt(Chooser):
     A point is [tid, counter, n, to]: when thread `tid` reaches the n-th event of kind
     `counter` ('focus' = yield point in a focus file, 'any' = any yield point, 'lock' = lock acquire/release,
     '@<file relative to the traced tree>:<line>[:<instruction offset>]' = n-th visit of that focus location)
-    it is preempted in favour of thread `to` (None = next enabled in order after it)."""
+    it is preempted in favour of thread `to` (None = next enabled in order after it). When the running thread cannot
+    continue (start, blocked, finished) the next thread is taken from `inv` (recorded choices), else from `order`."""
 
-    def __init__(self, order, points, prefix=''):
+    def __init__(self, order, points, prefix='', inv=None):
         self.order = list(order)
+        self.inv = list(inv) if inv else []      # recorded choices at involuntary switches (start / blocked / finished)
         self.points = {}
         self.locpoints = {}
         for tid, counter, n, to in points:
@@ -219,7 +221,12 @@ class Preempt(Chooser):
 
     def choose(self, s, me, enabled, kind):
         if me is None or me not in enabled:
-            return self._keep_or(None if me not in enabled else me, enabled, self.order)
+            if self.inv:
+                tid = self.inv.pop(0)
+                for t in enabled:
+                    if t.tid == tid:
+                        return t
+            return self._keep_or(None, enabled, self.order)
         pts = self.points
         hit = None
         if (me.tid, 'any', me.n_any) in pts:
@@ -312,7 +319,7 @@ def make_chooser(spec, prefix='') -> Chooser:
     if k == 'serial':
         return Serial(spec[1])
     if k == 'preempt':
-        return Preempt(spec[1], spec[2], prefix)
+        return Preempt(spec[1], spec[2], prefix, spec[3] if len(spec) > 3 else None)
     if k == 'pct':
         return PCT(spec[1], spec[2])
     if k == 'random':
@@ -383,6 +390,7 @@ class Scheduler:
         self.fatal = None
         self.main_sem = threading.Semaphore(0)
         self.lock_log: list = []          # (tid, 'acq'|'rel', label)
+        self.switch_log: list = []        # [from tid | None, its yield-point count, kind, to tid] per context switch
         self._fcache: dict = {}
 
     def spawn(self, fn):
@@ -433,6 +441,7 @@ class Scheduler:
         self._record(nxt)
         if nxt is not me:
             self.switches += 1
+            self.switch_log.append([me.tid, me.n_any, kind, nxt.tid])
             nxt.sem.release()
             me.sem.acquire()
             if self.fatal is not None:
@@ -522,6 +531,7 @@ class Scheduler:
         nxt = self.chooser.choose(self, me, enabled, 'done')
         self._record(nxt)
         self.switches += 1
+        self.switch_log.append([me.tid, me.n_any, 'done', nxt.tid])
         nxt.sem.release()
 
     def run(self, hang_timeout=120.0):
@@ -534,6 +544,7 @@ class Scheduler:
                 t.worker.job = (lambda t=t: self._body(t))
             first = self.chooser.choose(self, None, self._enabled(), 'start')
             self._record(first)
+            self.switch_log.append([None, 0, 'start', first.tid])
             first.sem.release()
             if not self.main_sem.acquire(timeout=hang_timeout):
                 self.fatal = self.fatal or {'kind': 'hang', 'threads': [
